@@ -154,7 +154,7 @@ pub fn lay_out(case: &MCase) -> Vec<Laid> {
             let ext = f.host.file().rsplit('.').next().unwrap();
             // (a backslash is an ordinary character of a POSIX file name; git would quote such a path in a diff,
             // which is outside the generated domain, so diff mode uses the name without it)
-            let dir = if case.mode % 3 == 2 { f.dir.replace('\\', "") } else { f.dir.clone() };
+            let dir = if case.mode % 3 == 2 { f.dir.replace('\\', "").replace(|c: char| !c.is_ascii(), "u") } else { f.dir.clone() };
             let path = if dir.is_empty() { format!("f{fi}.{ext}") } else { format!("{dir}/f{fi}.{ext}") };
             Laid { path, text: r.text, names, expected }
         })
@@ -339,7 +339,7 @@ pub fn block_strategy() -> BoxedStrategy<MBlock> {
 pub fn case_strategy() -> BoxedStrategy<MCase> {
     let file = (
         prop_oneof![Just(Host::Sh), Just(Host::Rb), Just(Host::Sh)],
-        prop_oneof![Just(""), Just("d"), Just("d/e"), Just("src dir"), Just("gen\\x")],
+        prop_oneof![Just(""), Just("d"), Just("d/e"), Just("src dir"), Just("gen\\x"), Just("é\u{1f600}")],
         proptest::collection::vec(block_strategy(), 1..7),
     )
         .prop_map(|(host, dir, blocks)| MFile { host, dir: dir.to_string(), blocks });
@@ -347,7 +347,7 @@ pub fn case_strategy() -> BoxedStrategy<MCase> {
 }
 
 pub fn run(run: &mut Run) {
-    run.rule = "random: 1..5 files (root or sub-directories, one with a space, one with a backslash in its name) x 1..6 blocks x independent choice of keep-sorted / keep-unique / line-pattern / line-count / check-lua(echo|nil) / check-ai(fake endpoint objecting or answering OK) / affects with 1..3 stale references (live in diff mode: several diagnostics on the same range) on the same lines x severity in {absent, error, warning, info, hint} in random letter case; modes: scan with paths, interactive scan, new-file diff on stdin; then `list` in the same mode (and, in diff mode, `list` with an empty diff, which must print `{}`). Expected diagnostics from the C06–C09 reference models. Non-trivial case = at least two validators reporting on one file and an error among >= 2 non-errors (or the converse).".into();
+    run.rule = "random: 1..5 files (root or sub-directories, one with a space, one with a backslash, one with an accented letter and an emoji in its name) x 1..6 blocks x independent choice of keep-sorted / keep-unique / line-pattern / line-count / check-lua(echo|nil) / check-ai(fake endpoint objecting or answering OK) / affects with 1..3 stale references (live in diff mode: several diagnostics on the same range) on the same lines x severity in {absent, error, warning, info, hint} in random letter case; modes: scan with paths, interactive scan, new-file diff on stdin; then `list` in the same mode (and, in diff mode, `list` with an empty diff, which must print `{}`). Expected diagnostics from the C06–C09 reference models. Non-trivial case = at least two validators reporting on one file and an error among >= 2 non-errors (or the converse).".into();
     run.assumptions = vec!["block content lines are shell/ruby words; check-lua scripts are `echo` / `nil` scripts in the repository root".into()];
     run.random("mix", run.tier.pick(1200, 30000), case_strategy, check);
 }
